@@ -27,7 +27,9 @@ COUNT-SHAPE - in the leaf of the label partition OK = |X & rok|,
 KO = |X & rko|, total = |X| for the same X, rok / rko are forwarded unchanged
 by the recursion and come from the SUCCESS / FAILURE entries of the _result
 label (so OK + KO = total given CLS-KEY's exclusive labels).
-CLS-READ - no function that touches a classification (summaries,
+ID-UNIQUE - the by-labels index registers each result under its position in
+the complete list (enumerate from 0, not from a count of distinct label
+values). CLS-READ - no function that touches a classification (summaries,
 classification_counts, stats representers) reads the defaultdict with a key
 that is not drawn from it (an inserting read changes the key-based verdict).
 COUNT-SHAPE also understands the selection-parameter spelling of the label
@@ -47,6 +49,7 @@ def check(ctx):
     ctx.run(diag.check_verdict_keys)
     ctx.run(diag.check_count_shape)
     ctx.run(diag.check_cls_read)
+    ctx.run(diag.check_id_unique)
 
 
 def variants(program):
@@ -333,5 +336,42 @@ def variants(program):
     add('seed-counting-inserts-unobserved-statuses', 'mutant', counts_index,
         {'CLS-READ'}, quick=True,
         note='an all-successful summary is False once it was tabulated')
+
+    def shared_verdict(tree):
+        # seed C18-r3-2: one verdict for both summaries; TaskStatus.DONE and
+        # TestOutcome.NOT_A_TEST are the same integer
+        klass = next(n for n in tree.body if isinstance(n, ast.ClassDef)
+                     and n.name == 'TestResultStatsTests')
+        klass.body = [n for n in klass.body if not (
+            isinstance(n, ast.FunctionDef) and n.name == '__bool__')] or \
+            [ast.Pass()]
+        fun = find_func(tree, 'TestResultStatsTasks.__bool__')
+        doc = [s_ for s_ in fun.body if isinstance(s_, ast.Expr) and
+               isinstance(s_.value, ast.Constant)]
+        fun.body = doc + parse_stmts(
+            'observed = [status for status, items in self.classify.items() '
+            'if items]\n'
+            'return bool(observed) and all(status in (TaskStatus.DONE, '
+            'TestOutcome.SUCCESS) for status in observed)')
+        return True
+    add('seed-one-verdict-for-tasks-and-tests', 'mutant', shared_verdict,
+        {'VERDICT-KEYS'},
+        note='a summary that saw only NOT_A_TEST items (== 3 == DONE) is '
+             'reported successful')
+
+    def ids_from_distinct_names(tree):
+        # seed C18-r3-1 (reduced)
+        fun = find_func(tree, 'TestStatsTestsByLabels._build_index')
+        for node in ast.walk(fun):
+            if isinstance(node, ast.For) and isinstance(
+                    node.iter, ast.Call) and call_name(node.iter) == \
+                    'enumerate':
+                node.iter.keywords.append(ast.keyword(
+                    arg='start', value=parse_expr(
+                        "len(index['_test_name'])")))
+                return True
+        return False
+    add('seed-ids-numbered-from-the-count-of-distinct-test-names', 'mutant',
+        ids_from_distinct_names, {'ID-UNIQUE'})
 
     return out
